@@ -9,6 +9,10 @@ mod fam_srv;
 mod fam_fe;
 mod fam_send;
 mod fam_locks;
+mod peer;
+mod daemon;
+mod fam_route;
+mod fam_log;
 
 use std::io::{self, BufRead, Write};
 
@@ -61,6 +65,8 @@ fn fam_dispatch(fam: &str, line: &str) -> Option<String> {
         "fe" => Some(fam_fe::run(line)),
         "send" => Some(fam_send::run(line)),
         "locks" => Some(fam_locks::run(line)),
+        "route" => Some(fam_route::run(line)),
+        "log" => Some(fam_log::run(line)),
         _ => None,
     }
 }
